@@ -253,6 +253,7 @@ let exec (s : t) (verbose : bool) (f : string array) (obs : string option) : str
      | (_, h) -> lock_close h; "ok")
   | "openrace" -> "done"
   | "probeclose" -> ""
+  | "hostile" -> ""
   | "close" ->
     let (k, evs) = db_close (get_db s) s.disk in
     (match Hashtbl.find_opt cur_handle s.cur with Some h -> lock_close h | None -> ());
